@@ -976,6 +976,39 @@ fn run_stream<K: Kind>(st: &mut Stream, stream: &str, rng: &mut Rng, n_random: u
     }
 }
 
+/// "every stack of adaptors": a `buffered` stage (over a ring buffer that is empty at ANY rotation, or pre-filled) in the
+/// stack must not disturb exactness of exhaustion — until_exhausted, take and interleaved output over
+/// from_iter(v).buffered(ring) yield exactly the frames of v in order, then stop (oracle only)
+fn buffered_in_the_stack(st: &mut Stream, rng: &mut Rng) {
+    use dasp_ring_buffer as ring_buffer;
+    for cap in 1..=7usize { for start in 0..cap { for len in [0usize, 1, cap - 1, cap, cap + 1, 2 * cap + 3] {
+        let v: Vec<[i16; 2]> = (0..len).map(|i| [100 + i as i16, -(i as i16) - rng.range(0, 2) as i16]).collect();
+        let case = format!("from_iter({:?}).buffered(empty ring of capacity {} at start {})", v, cap, start);
+        mark(0, &case);
+        let r = guarded(|| {
+            let mk = || signal::from_iter(v.clone()).buffered(ring_buffer::Bounded::from_raw_parts(start, 0, vec![[7i16; 2]; cap]));
+            let a: Vec<[i16; 2]> = mk().until_exhausted().take(len + 3 * cap + 5).collect();
+            let b: Vec<i16> = mk().scale_amp(1.0).into_interleaved_samples().into_iter().take(2 * len + 7).collect();
+            let c: Vec<[i16; 2]> = mk().take(len + 2).collect();
+            (a, b, c)
+        });
+        st.count("buffered_stage_in_the_stack");
+        match r {
+            None => st.oracle_fail("panic", &case, "no panic", "panic"),
+            Some((a, b, c)) => {
+                // until_exhausted over a buffered signal: the source's frames in order, then at most the padding of the last
+                // refill (equilibrium); never a frame out of order
+                let flat: Vec<i16> = v.iter().flat_map(|f| f.iter().cloned()).collect();
+                let ok_a = a.len() >= len && a[..len] == v[..] && a[len..].iter().all(|f| *f == [0, 0]) && a.len() <= len + cap;
+                let ok_b = b.len() >= 2 * len && b[..2 * len] == flat[..] && b[2 * len..].iter().all(|x| *x == 0);
+                let mut want_c = v.clone(); want_c.push([0, 0]); want_c.push([0, 0]);
+                if ok_a && ok_b && c == want_c { st.oracle_ok(len as u64 + 1); }
+                else { st.oracle_fail("a buffered stage in the stack changed the frames, their order, or the point of exhaustion", &case, &format!("{:?} then equilibrium / the end", v), &format!("until_exhausted {:?} | interleaved {:?} | take {:?}", a, b, c)); }
+            }
+        }
+    } } }
+}
+
 /// WIDE frames: "every channel count" — 255, 256, 257 and 300 channels through from_interleaved_samples_iter,
 /// into_interleaved_samples (next_sample and the iterator), until_exhausted and channels() (oracle only)
 fn wide_frames(st: &mut Stream, rng: &mut Rng) {
@@ -1065,7 +1098,7 @@ fn main() {
     run_stream::<[i64; 2]>(&mut st, &stream, &mut rng, n / 2, w, d, None);
     run_stream::<[u64; 2]>(&mut st, &stream, &mut rng, n / 2, w, d, None);
     // call-site resolution: every adaptor method on the concrete type of every other adaptor (see typed.rs)
-    if stream == "exhaust" { fork_exhaustion(&mut st, &mut rng); wide_frames(&mut st, &mut rng); }
+    if stream == "exhaust" { fork_exhaustion(&mut st, &mut rng); wide_frames(&mut st, &mut rng); buffered_in_the_stack(&mut st, &mut rng); }
     if stream == "adapt" {
         let rounds = if t { 300 } else { 40 };
         typed::stereo_i16::run_all(&mut st, &mut rng, rounds);
